@@ -642,6 +642,14 @@ def O_rules(ctx, rule="O"):
         for s in fl.sources_operand(b, t["args"][p_proc - 1]):
             if s.kind == "alloc":
                 proc_allocs.add((s[1], s[2]))
+    push_allocs = set()
+    for b0 in fb.prod_bodies():
+        for bb0, t0 in b0.calls():
+            if (callee_path(t0) or "").endswith("Vec::<T, A>::push"):
+                if m.is_ready_item(fl.sources_operand(b0, t0["args"][1])):
+                    for s0 in fl.sources_operand(b0, t0["args"][0]):
+                        if s0.kind == "alloc":
+                            push_allocs.add((s0[1], s0[2]))
     # O1: pushes
     n1 = 0
     for b in fb.prod_bodies():
@@ -668,11 +676,11 @@ def O_rules(ctx, rule="O"):
     # every streaming call hands the vector it tracked to StreamOutcome::new
     for (b, bb, t) in sites:
         vs = fl.sources_operand(b, t["args"][p_proc - 1])
-        ok = bool(vs) and all(s.kind == "alloc" and s[4].endswith("with_capacity") or (s.kind == "alloc" and "Vec" in s[4]) for s in vs)
+        ok = bool(vs) and all(s.kind == "alloc" and (s[1], s[2]) in push_allocs for s in vs)
         gs = fl.sources_operand(b, t["args"][p_graph - 1])
         from rules_sched import structure_from_setup
         ctx.check(ok and structure_from_setup(ctx, gs), rule + "2", "new-args|%s" % short(b.id), m.where(b, bb),
-                  "StreamOutcome::new receives the tracked id vector and the walked structure",
+                  "StreamOutcome::new receives the very vector the dequeued ids were pushed to, and the walked structure",
                   "StreamOutcome::new receives processed=%s structure=%s" % ([fmt_src(s) for s in vs][:3], [fmt_src(s) for s in gs][:3]))
     for (b, bb, t) in sites:
         ctx.cover(rule + "2", b.id)
@@ -1123,6 +1131,45 @@ def G_rules(ctx, rule="G"):
         ctx.check(attrs >= {"source", "target", "edge-weight", "node-weight"}, rule + "5", "eq-attrs", m.where(eqb),
                   "GraphInfo == compares node weights and (source, target, weight) of every edge",
                   "GraphInfo == compares only %s" % sorted(attrs))
+    # G3b writer's and reader's tables agree (catches asymmetric #[serde(..)] attributes)
+    for ty in ("graph_info::GraphInfo", "edge::Edge", "fn_id_inner::FnIdInner"):
+        adt = fb.adts.get(ty)
+        if adt is None:
+            ctx.unverifiable(rule + "3", "serde-tables|%s" % ty, "-", "type %s not found" % ty)
+            continue
+        is_enum = adt["kind"] == "Enum"
+        want = [v["name"] for v in adt["variants"]] if is_enum else [f["name"] for f in adt["variants"][0]["fields"]]
+        ser_names, de_names = [], []
+        ser_kind = set()
+        for b in fb.bodies.values():
+            if "_serde::Serialize for %s" % ty in b.id and b.id.endswith("::serialize"):
+                for bb, t in b.calls():
+                    nm = (t.get("callee") or {}).get("name")
+                    if nm in ("serialize_field", "serialize_unit_variant", "serialize_newtype_struct", "serialize_newtype_variant",
+                              "serialize_element", "skip_field"):
+                        ser_kind.add(nm)
+                        strs = [a["val"].strip('"') for a in t["args"] if a["k"] == "const" and a["ty"].startswith("&") and "str" in a["ty"]]
+                        if nm in ("serialize_unit_variant", "serialize_newtype_variant"):
+                            ser_names.append(strs[-1] if strs else "?")
+                        elif nm == "serialize_field":
+                            ser_names.append(strs[0] if strs else "?")
+                        elif nm == "skip_field":
+                            ser_names.append("<skipped>")
+            if "_serde::Deserialize<'de> for %s" % ty in b.id and b.id.endswith("__FieldVisitor as edge::_::_serde::de::Visitor<'de>>::visit_str"):
+                for bb, t in b.calls():
+                    if callee_path(t) == "std::cmp::PartialEq::eq":
+                        for a in t["args"]:
+                            if a["k"] == "const" and "str" in a["ty"]:
+                                de_names.append(a["val"].strip('"'))
+        if not is_enum and len(want) == 1 and "serialize_newtype_struct" in ser_kind:
+            ctx.ok(rule + "3", "serde-tables|%s" % ty, where, "%s is serialised as a transparent newtype (one field, no names involved)" % ty)
+            continue
+        ok = sorted(ser_names) == sorted(want) and sorted(de_names) == sorted(want)
+        ctx.check(ok, rule + "3", "serde-tables|%s" % ty, where,
+                  "the derived Serialize writes exactly the %s %s and the derived Deserialize reads exactly the same names" % (
+                      "variants" if is_enum else "fields", want),
+                  "serde tables disagree for %s: declared %s, written %s, read %s (an asymmetric #[serde(..)] attribute breaks the round trip)" % (
+                      ty, want, ser_names, de_names))
     # G3 derives
     def is_serde(t):
         return "serde" in (t or "") and ((t or "").endswith("::Serialize") or (t or "").endswith("::Deserialize"))
